@@ -3,7 +3,7 @@ one abstract state per path = trace partitioning)."""
 from .core import AnalysisError, subterms, term_s
 from .lin import Lin, State
 from .paths import PathEnum
-from .rules.util import canon, payload_of, const_of, is_call, last_seg, look, norm, truth, option_is_some
+from .rules.util import canon, as_sum, payload_of, const_of, is_call, last_seg, look, norm, truth, option_is_some
 from .shapes import Shapes, TOP
 
 UMAX = {"u8": 2**8 - 1, "u16": 2**16 - 1, "u32": 2**32 - 1, "u64": 2**64 - 1, "usize": 2**64 - 1, "u128": 2**128 - 1}
@@ -158,6 +158,10 @@ class Tr:
                     return self.lin(r[3][0])
                 if kind == "RangeFull":
                     return self.length(base)
+        if x[0] == "field" and x[3] in ("0", "1") and is_call(look(x[1]), "split_at", "split_at_mut") and len(look(x[1])[2]) == 2:
+            sp = look(x[1])
+            mid = self.lin(sp[2][1])
+            return mid if x[3] == "0" else self.length(sp[2][0]) - mid
         if is_call(x, "collect") and is_call(look(x[2][0]), "splitn"):
             k = const_of(look(x[2][0])[2][1])
             if isinstance(k, int) and k >= 1:
@@ -217,6 +221,11 @@ class Tr:
                 self.st.add_le(p + self.length(src[2][1]) - self.length(src[2][0]))
                 self.trusted_used.add("request::find(h, n) = Some(i) implies i + n.len() <= h.len() (windows/position)")
                 self.find_lemma(t, src, p)
+                return p
+            if src[0] == "call" and src[1].startswith("core::str::<impl str>::") and last_seg(src[1]) in ("find", "rfind") and src[2]:
+                p = self.atom(key, 0, None)
+                self.st.add_le(p - self.length(src[2][0]))
+                self.trusted_used.add("str::find returns a byte offset inside the string, at a char boundary")
                 return p
             if is_call(src, "position"):
                 it = look(src[2][0])
@@ -288,13 +297,21 @@ class Tr:
         the result cannot fall strictly inside the first occurrence of Q unless Q overlaps itself."""
         hay, needle = look(src[2][0]), look(src[2][1])
         n = needle[1] if needle[0] == "const" else (bytes(x[1] for x in needle[1]) if needle[0] == "array" and all(y[0] == "const" for y in needle[1]) else None)
-        if not isinstance(n, (bytes, str)) or not is_call(hay, "index"):
+        if not isinstance(n, (bytes, str)):
             return
         n = n if isinstance(n, bytes) else n.encode()
-        r = look(hay[2][1])
-        if not (r[0] == "agg" and r[1].startswith("std::ops::RangeFrom")):
+        # the haystack is parent[q..], written as an index expression or as the second half of split_at(parent, q)
+        if is_call(hay, "index"):
+            r = look(hay[2][1])
+            if not (r[0] == "agg" and r[1].startswith("std::ops::RangeFrom")):
+                return
+            parent, qterm = hay[2][0], r[3][0]
+        elif hay[0] == "field" and hay[3] == "1" and is_call(look(hay[1]), "split_at") and len(look(hay[1])[2]) == 2:
+            parent, qterm = look(hay[1])[2][0], look(hay[1])[2][1]
+        else:
             return
-        f1 = payload_of(r[3][0])
+        hay = ("call", "index", (parent, None), 0)
+        f1 = payload_of(qterm)
         if not (f1 is not None and is_call(f1, "request::find")):
             return
         if norm(look(f1[2][0])) != norm(look(hay[2][0])):
@@ -419,7 +436,7 @@ class PanicAnalysis:
 
     # ---- per function
     def analyse_fn(self, fn, env_facts=None):
-        leaves = PathEnum(fn, self.facts, versioned=True).run()
+        leaves = PathEnum(fn, self.facts, versioned=True, lower=True).run()
         cyc = fn.cyclic_blocks()
         for lf in leaves:
             st = State()
@@ -588,6 +605,14 @@ class PanicAnalysis:
                     ok = st.entails_le(a - b) and st.entails_le(b - L) and st.entails_le(a.scale(-1)) and st.entails_le(d + b - a - L) and st.entails_le(d.scale(-1))
             self.record(fn, "call", "copy_within|%s" % desc[:110], desc, loc, e[1], ok, "" if ok else "source range within the slice and dest + count <= len not entailed")
             return
+        if kind == "at-most-len" and last_seg(path) in ("split_at", "split_at_mut", "split_off") and len(args) == 2:
+            L = tr.length(args[0])
+            m = tr.lin(args[1])
+            ok = st.entails_le(m - L) and st.entails_le(m.scale(-1))
+            desc = "%s.%s(%s)" % (summarize(args[0], 40), last_seg(path), summarize(args[1], 60))
+            is_str = "str" in path or "String" in path
+            self.record(fn, "call", "at-most-len|%s" % desc[:100], desc, loc, e[1], ok and not is_str, "" if ok and not is_str else ("str split: char boundary not covered by a lemma" if is_str else "mid <= len not entailed by the path's guards"))
+            return
         if kind == "nonzero-arg":
             n = tr.lin(args[1])
             ok = st.entails_le(Lin.const(1) - n)
@@ -626,37 +651,75 @@ class PanicAnalysis:
             return False, "str slicing other than s[n..] is not covered by a lemma"
         n = look(r[3][0])
         b = look(base)
-        # L-str-prefix: n == len(P) under starts_with(s, P), P ASCII
-        plen = None
-        if is_call(n, "len") and look(n[2][0])[0] == "const" and isinstance(look(n[2][0])[1], str):
-            P = look(n[2][0])[1]
-            plen = P
-        if plen is not None:
+        if n == ("const", 0):
+            return True, "index 0"
+
+        def prefix_len_on_path(k):
+            """k (an int, or a string P meaning len(P)) is the length of an ASCII prefix P with starts_with(b, P) / strip_prefix on this path."""
             for ev in lf.events[:i]:
                 if ev[0] == "cond" and is_call(look(ev[3]), "starts_with") and truth(ev[4]):
-                    s, p = look(ev[3])[2]
-                    if norm(look(s)) == norm(b) and const_of(p) == plen and all(ord(ch) < 128 for ch in plen):
-                        return True, "L-str-prefix"
-            return False, "s[len(P)..] without a dominating s.starts_with(P)"
-        # L-str-byte: n from s.bytes().position(|b| b == ascii)
-        if payload_of(n) is not None and is_call(payload_of(n), "position"):
-            pos = payload_of(n)
+                    s_, p_ = look(ev[3])[2]
+                    P = const_of(p_)
+                    if norm(look(s_)) == norm(b) and isinstance(P, str) and all(ord(ch) < 128 for ch in P) and (k == P or k == len(P)):
+                        return True
+            return False
+
+        def ascii_position(pos, skip):
+            """pos = position(iter over the bytes of b[skip..], |x| x == ASCII)"""
             it = look(pos[2][0])
             while it[0] == "mut":
                 it = look(it[1])
-            if is_call(it, "bytes") and norm(look(it[2][0])) == norm(b):
-                clo = look(pos[2][1])
-                if clo[0] == "closure" and clo[1] in self.facts.fns:
-                    ok = True
-                    for l2 in PathEnum(self.facts.fns[clo[1]], self.facts).run():
-                        rr = l2.ret()
-                        c = None
-                        if rr[0] == "bin" and rr[1] == "Eq":
-                            c = const_of(rr[2]) if const_of(rr[2]) is not None else const_of(rr[3])
-                        ok = ok and isinstance(c, int) and 0 <= c < 128
-                    if ok:
-                        return True, "L-str-byte"
+            src = None
+            if is_call(it, "bytes", "iter", "into_iter") and it[2]:
+                src = look(it[2][0])
+            if src is None:
+                return False
+            if skip:
+                if not (is_call(src, "index") and len(src[2]) == 2):
+                    return False
+                rr = look(src[2][1])
+                if not (rr[0] == "agg" and rr[1].startswith("std::ops::RangeFrom") and const_of(rr[3][0]) == skip):
+                    return False
+                src = look(src[2][0])
+            if norm(src) != norm(b):
+                return False
+            clo = look(pos[2][1])
+            if not (clo[0] == "closure" and clo[1] in self.facts.fns):
+                return False
+            good = True
+            for l2 in PathEnum(self.facts.fns[clo[1]], self.facts).run():
+                rr = l2.ret()
+                c = None
+                if rr[0] == "bin" and rr[1] == "Eq":
+                    c = const_of(rr[2]) if const_of(rr[2]) is not None else const_of(rr[3])
+                good = good and isinstance(c, int) and 0 <= c < 128
+            return good
+
+        # L-str-prefix: n == len(P) under starts_with(s, P), P ASCII
+        plen = None
+        if is_call(n, "len") and look(n[2][0])[0] == "const" and isinstance(look(n[2][0])[1], str):
+            plen = look(n[2][0])[1]
+        if plen is not None:
+            if prefix_len_on_path(plen):
+                return True, "L-str-prefix"
+            return False, "s[len(P)..] without a dominating s.starts_with(P)"
+        # L-str-find: n is where str::find / rfind located a pattern in this very string
+        src = payload_of(n)
+        if src is not None and src[0] == "call" and src[1].startswith("core::str::<impl str>::") and last_seg(src[1]) in ("find", "rfind") and src[2] and norm(look(src[2][0])) == norm(b):
+            return True, "L-str-find"
+        # L-str-byte: n from s.bytes().position(|b| b == ascii)
+        if src is not None and is_call(src, "position"):
+            if ascii_position(src, 0):
+                return True, "L-str-byte"
             return False, "position() is not over the bytes of the sliced string with an ASCII test"
+        # L-str-byte after an ASCII prefix: n = k + position over the bytes of s[k..], with starts_with(s, P), len(P) = k
+        sm = as_sum(n)
+        if sm is not None:
+            for a_, p_ in (sm, (sm[1], sm[0])):
+                k = const_of(a_)
+                ps = payload_of(p_)
+                if isinstance(k, int) and ps is not None and is_call(ps, "position") and ascii_position(ps, k) and prefix_len_on_path(k):
+                    return True, "L-str-prefix + L-str-byte"
         return False, "start index of the str slice is not covered by a lemma"
 
     def path_infeasible(self, fn, lf, i):
